@@ -231,26 +231,30 @@ theorem expected_is_cur (lang : Option (List Char) → σ) (evs : List Event) (s
         · simp only [List.mem_singleton] at hp
           subst hp
           exact ⟨hcur, fun _ => rfl⟩
-      · exact ih _ hcur (by simp) hrest p hp
+      · refine ih _ ?_ ?_ hrest p hp
+        · exact hcur
+        · intro x hx; simp at hx
     | changedLine fl =>
       cases fl with
       | false =>
         simp only [step, Bool.false_eq_true, if_false] at hp
         rcases hp with hp | hp
         · simp at hp
-        · refine ih _ hcur ?_ hrest p hp
-          intro x hx
-          rcases List.mem_append.mp hx with hx | hx
-          · exact hbuf x hx
-          · simp only [List.mem_singleton] at hx; subst hx; exact hcur
+        · refine ih _ ?_ ?_ hrest p hp
+          · exact hcur
+          · intro x hx
+            rcases List.mem_append.mp hx with hx | hx
+            · exact hbuf x hx
+            · simp only [List.mem_singleton] at hx; subst hx; exact hcur
       | true =>
         simp only [step, if_true, execStmt] at hp
         rcases hp with hp | hp
         · exact pb _ _ hbuf p hp
-        · refine ih _ hcur ?_ hrest p hp
-          intro x hx
-          simp only [List.nil_append, List.mem_singleton] at hx
-          subst hx; exact hcur
+        · refine ih _ ?_ ?_ hrest p hp
+          · exact hcur
+          · intro x hx
+            simp only [List.nil_append, List.mem_singleton] at hx
+            subst hx; exact hcur
     | contextLine =>
       simp only [step, execStmt] at hp
       rcases hp with hp | hp
@@ -259,11 +263,15 @@ theorem expected_is_cur (lang : Option (List Char) → σ) (evs : List Event) (s
         · simp only [List.mem_singleton] at hp
           subst hp
           exact ⟨hcur, fun hk => by cases hk⟩
-      · exact ih _ hcur (by simp) hrest p hp
+      · refine ih _ ?_ ?_ hrest p hp
+        · exact hcur
+        · intro x hx; simp at hx
     | flush =>
       simp only [step, execStmt] at hp
       rcases hp with hp | hp
       · exact pb _ _ hbuf p hp
-      · exact ih _ hcur (by simp) hrest p hp
+      · refine ih _ ?_ ?_ hrest p hp
+        · exact hcur
+        · intro x hx; simp at hx
 
 end Superimpose.Lifetime
